@@ -1,7 +1,10 @@
 package props
 
 import (
+	"encoding/json"
 	"fmt"
+	"os"
+	"path/filepath"
 	"math/big"
 	"reflect"
 	"strings"
@@ -119,6 +122,9 @@ func (s Step) JSON() map[string]interface{} {
 	case 3:
 		out["hook"] = "BeginBlock"
 		out["rewards_epoch_ended"] = s.Epoch
+	}
+	if s.Kind != 1 && s.Log != "" {
+		out["panic"] = s.Log
 	}
 	return out
 }
@@ -282,10 +288,17 @@ func RunClpHistories(c Ctx, rep *report.Report, rng *chain.Rng, o HistOpts, next
 				panicked := e.EndBlock()
 				post := e.Snapshot()
 				*nextID++
-				hist.Steps = append(hist.Steps, Step{ID: *nextID, Kind: 2, OK: !panicked, Pre: pre, Post: post, HistID: h, StepNo: st, EnvRef: e})
+				hist.Steps = append(hist.Steps, Step{ID: *nextID, Kind: 2, OK: !panicked, Pre: pre, Post: post, HistID: h, StepNo: st, EnvRef: e, Log: hookPanicText(e, panicked)})
 				rep.Count("hook.EndBlock")
 				if panicked {
 					rep.Count("hook.EndBlock.panic")
+					if d := os.Getenv("VERIF_DUMP_PANICS"); d != "" {
+						hist.Env = e
+						rp := replayOf(hist, st)
+						rp["pre_state_of_the_panicking_hook"] = pre
+						bz, _ := json.MarshalIndent(rp, "", " ")
+						_ = os.WriteFile(filepath.Join(d, fmt.Sprintf("hookpanic_%d_%d.json", c.Seed, h)), bz, 0o644)
+					}
 					break
 				}
 				e.Commit()
@@ -544,7 +557,7 @@ func recBlock(h *History, nextID *int, stepNo int) {
 	panicked := e.EndBlock()
 	post := e.Snapshot()
 	*nextID++
-	h.Steps = append(h.Steps, Step{ID: *nextID, Kind: 2, OK: !panicked, Pre: pre, Post: post, HistID: h.ID, StepNo: stepNo, EnvRef: e})
+	h.Steps = append(h.Steps, Step{ID: *nextID, Kind: 2, OK: !panicked, Pre: pre, Post: post, HistID: h.ID, StepNo: stepNo, EnvRef: e, Log: hookPanicText(e, panicked)})
 	e.Commit()
 	pre = e.Snapshot()
 	ep0 := epochNo(e, pre.Params.EpochID)
@@ -686,4 +699,12 @@ func ScriptReinvestDry(nextID *int) History {
 		recBlock(&h, nextID, 4+i)
 	}
 	return h
+}
+
+// hookPanicText: what a block hook panicked with (empty when it did not)
+func hookPanicText(e *env.Env, panicked bool) string {
+	if !panicked {
+		return ""
+	}
+	return trunc(fmt.Sprint(e.HookPanic), 300)
 }
